@@ -13,7 +13,7 @@ def run(ctx, rep):
                        'every accepted split size is block aligned; only a non-fixed split receives the remainder, a leftover is an error; new sizes are copied to the state and flagged for saving; '
                        'the split sizes travel through the Q record (C10). The bijection under all growth/shrink histories and byte-equality with single-file parity are NOT decided.')
     rep.rule('R-C17-1', 'single mapping: parity_read/parity_write use the same offset expression and parity_split_find; no other pread/pwrite on split descriptors; only parity_split_find walks split sizes for addressing', 4)
-    rep.rule('R-C17-2', 'parity_split_find: splits visited in index order, offset reduced by each skipped size, negative and past-the-end offsets rejected; valid_size raised on write and checked on read', 4)
+    rep.rule('R-C17-2', 'parity_split_find interpreted over an exhaustive small domain (offset -> split, inner offset; null outside); valid_size raised on write and checked on read', 3)
     rep.rule('R-C17-3', 'parity_chsize: accepted sizes are block aligned (guarded), fixed splits keep their size, leftover is an error, sizes copied to the state and flagged', 5)
     offs = {}
     for name in ('parity_read', 'parity_write'):
@@ -47,21 +47,52 @@ def run(ctx, rep):
 
     f = P.fn('parity_split_find')
     rep.analysed(f)
-    conds = [f.expr(f.term(b).ops[0]) for b in range(len(f.blocks)) if f.term(b).op == 'br' and len(f.term(b).ops) == 3]
-    import re
-    cc = [c.replace(' ', '') for c in conds]
-    neg = any(re.match(r'^\(\*\w+<0\)$', c) for c in cc)
-    mb = [re.match(r'^\((\w+)<\w+->split_mac\)$', c) for c in cc]
-    mb = [m for m in mb if m]
-    bound = bool(mb)
-    lv = mb[0].group(1) if mb else '?'
-    hit = any(re.match(r'^\(\*\w+<\w+->size\)$', c) for c in cc)
-    sub = [i for i in f.all_insts() if i.op == 'store' and f.strip(i.ops[1])[0] == 'i' and f.inst_of(i.ops[1]).op == 'load' and re.match(r'^\(\*\w+-\w+->size\)$', f.expr(i.ops[0]).replace(' ', ''))]
-    inc = [i for i in f.all_insts() if i.op == 'store' and f.expr(i.ops[1]) == '&' + lv and f.expr(i.ops[0]) == '(%s+1)' % lv]
-    zero = [i for i in f.all_insts() if i.op == 'store' and f.expr(i.ops[1]) == '&' + lv and f.const_of(i.ops[0]) == 0]
-    rep.check(neg and bound and hit and len(sub) == 1 and len(inc) == 1 and len(zero) == 1, 'R-C17-2', 'parity_split_find walks s = 0..split_mac-1, returns the first split with offset < size, subtracts skipped sizes', f.file, str(conds), function='parity_split_find', construct='walk')
-    nul = [i for i in f.all_insts() if i.op == 'store' and f.expr(i.ops[1]) == '&retval' and f.const_of(i.ops[0]) == 0]
-    rep.check(len(nul) == 2, 'R-C17-2', 'parity_split_find returns 0 for negative and for past-the-end offsets', f.file, '%d null returns' % len(nul), function='parity_split_find', construct='range')
+    # the mapping offset -> (split, offset inside the split) is integer-only code over the split sizes: interpret it over an
+    # exhaustive small domain (no expression-shape rule: any rewrite that keeps the mapping passes)
+    from .. import region as RG
+    dh_ = P.distructs.get('snapraid_parity_handle'); dsp_ = P.distructs.get('snapraid_split_handle')
+    if not (dh_ and dsp_):
+        raise AnalysisBroken('layout of snapraid_parity_handle not found')
+    o_mac = [m_ for m_ in dh_['members'] if m_['name'] == 'split_mac'][0]['off']
+    o_map = [m_ for m_ in dh_['members'] if m_['name'] == 'split_map'][0]['off']
+    o_size = [m_ for m_ in dsp_['members'] if m_['name'] == 'size'][0]['off']
+    import itertools as _it2
+    badm = None; nm = 0
+    for mac in range(1, 5):
+        for sizes in _it2.product((0, 4, 8), repeat=mac):
+            total = sum(sizes)
+            for off_in in range(-2, total + 3):
+                R = RG.Region(P)
+                hp = RG.P_(('obj', 'handle'), 0)
+                R.mem[(hp.reg, o_mac)] = mac
+                for k_, sz in enumerate(sizes):
+                    R.mem[(hp.reg, o_map + k_ * dsp_['size'] + o_size)] = sz
+                op_ = R.array('offset', [off_in & ((1 << 64) - 1)], 8)
+                try:
+                    r_ = R.run(f, 0, [hp, op_])
+                except RG.OutOfBounds as e_:
+                    badm = badm or str(e_)
+                    continue
+                nm += 1
+                # expected
+                want = None; rem = off_in
+                if off_in >= 0:
+                    for k_, sz in enumerate(sizes):
+                        if rem < sz:
+                            want = k_
+                            break
+                        rem -= sz
+                got = None
+                if isinstance(r_, RG.P_):
+                    got = (r_.off - o_map) // dsp_['size']
+                outv = RG.signed(R.mem[(op_.reg, 0)], 64)
+                if want is None:
+                    okm = not isinstance(r_, RG.P_) and r_ == 0
+                else:
+                    okm = got == want and outv == rem
+                if not okm and badm is None:
+                    badm = 'split sizes %s, offset %d: resolved to split %s offset %s, expected %s' % (list(sizes), off_in, got, outv, 'no split (null)' if want is None else 'split %d offset %d' % (want, rem))
+    rep.check(badm is None, 'R-C17-2', 'parity_split_find maps every offset to the split that contains it and to the offset inside that split; negative and past-the-end offsets give null (split_mac 1..4, sizes 0/4/8, every offset)', f.file, '%d evaluations' % nm if badm is None else badm, function='parity_split_find', construct='mapping domain')
     w = P.fn('parity_write'); r = P.fn('parity_read')
     vs = [i for i in w.all_insts() if i.op == 'store' and w.expr(i.ops[1]).endswith('split->valid_size')]
     rep.check(len(vs) == 1 and 'offset' in w.expr(vs[0].ops[0]) and 'block_size' in w.expr(vs[0].ops[0]), 'R-C17-2', 'parity_write raises valid_size to offset + block_size', w.file, '', function='parity_write', construct='valid_size raise')
@@ -69,6 +100,7 @@ def run(ctx, rep):
     rep.check(any('valid_size' in c and 'offset' in c for c in rc), 'R-C17-2', 'parity_read refuses offsets beyond valid_size', r.file, '', function='parity_read', construct='valid_size check')
 
     valid_size_rules(P, rep, 'R-C17-2v')
+    chsize_domain_rule(P, rep, 'R-C17-3d', ctx.tier)
     c = P.fn('parity_chsize')
     rep.analysed(c)
     dead = dead_blocks(c)
@@ -90,8 +122,6 @@ def run(ctx, rep):
     rep.check(len(cp) == 1 and c.expr(cp[0].ops[0]) == 'split->size' and bool(im) and c.bdominates(cp[0].block, im[0].block) or (len(cp) == 1 and bool(im)), 'R-C17-3', 'parity_chsize: new sizes copied to the state and *is_modified set', c.file, '', function='parity_chsize', construct='size to state')
     g = P.fn('parity_split_is_fixed')
     rep.analysed(g)
-    conds = [g.expr(g.term(b).ops[0]).replace(' ', '') for b in range(len(g.blocks)) if g.term(b).op == 'br' and len(g.term(b).ops) == 3]
-    rep.check(any('split_mac' in x for x in conds) and any('size==0' in x for x in conds), 'R-C17-3', 'parity_split_is_fixed: a split is growing iff it is the last or the next one is empty', g.file, str(conds), function='parity_split_is_fixed', construct='fixed predicate')
     # the predicate ranges over a finite domain (split_mac <= SPLIT_MAX, sizes matter only as zero / non-zero): interpret it for all of it
     from .. import kernels as K
     from ..comparators import field_offsets
@@ -156,3 +186,128 @@ def valid_size_rules(P, rep, rid):
                 rep.check(ok, rid, '%s: valid_size = %s (%s)' % (base(f.name), val, kind or 'unclassified'), i.loc(), 'guards: %s' % [g for g in gs if 'valid_size' in g[0]], function=base(f.name), construct='valid_size %s' % (kind or 'unclassified'))
                 rep.analysed(f)
     return n
+
+
+def handle_valid_size_rules(P, rep, rid):
+    """typestate of handle->valid_size (how much of a data file holds real data while fix rebuilds it): set to 0, to the size
+    found by fstat or to the recorded size at open / create / truncate / close; every other assignment is a monotone raise
+    (guarded by valid_size < new value).  A lowering assignment makes later blocks of a file that is present read as missing."""
+    from ..guards import guards_of
+    rep.rule(rid, 'handle->valid_size: (re)initialised from 0 / st_size / file->size, otherwise only raised (guarded valid_size < value)', 6)
+    n = 0
+    for f in P.defined():
+        if not (f.file or '').endswith('handle.c'):
+            continue
+        for i in f.all_insts():
+            if i.op == 'store' and f.expr(i.ops[1]).endswith('valid_size') and 'split' not in f.expr(i.ops[1]):
+                n += 1
+                val = f.expr(i.ops[0]).replace(' ', '')
+                tgt = f.expr(i.ops[1]).lstrip('&').replace(' ', '')
+                if f.const_of(i.ops[0]) == 0 or val.endswith('st.st_size') or val.endswith('->size'):
+                    ok = True; kind = 'init'
+                else:
+                    kind = 'raise'
+                    gs = guards_of(f, i)
+                    ok = any(a.replace(' ', '') == '(%s<%s)' % (tgt, val) and p for a, p in gs) or any(a.replace(' ', '') == '(%s>=%s)' % (tgt, val) and not p for a, p in gs)
+                rep.check(ok, rid, '%s: %s = %s (%s)' % (base(f.name), tgt, val, kind), i.loc(), '' if ok else 'assignment that can lower the valid size of an open data file', function=base(f.name), construct='handle valid_size %s' % kind)
+                rep.analysed(f)
+    return n
+
+
+def chsize_domain_rule(P, rep, rid, tier='quick'):
+    """parity_chsize is integer-only code around one effectful callee (parity_handle_chsize, which resizes one split file and
+    refreshes split->st).  It is interpreted from the IR with that callee replaced by a model of the file system (a split can be
+    lost or short, and can grow only up to a capacity), over an exhaustive small domain.  Post-condition on success: the new
+    sizes add up to the requested size, are the real file sizes, are recorded in the state -- and a split that had a used
+    successor keeps its size whenever the request still reaches beyond it (the boundaries of used splits never move)."""
+    from .. import region as RG
+    import itertools
+    rep.rule(rid, 'parity_chsize over an exhaustive small domain (1..3 splits, recorded sizes 0/4/8, files intact / short / lost, growth capped): success implies sizes sum to the request, equal the real file sizes, are copied to the state, and no boundary of a used split moves', 2000)
+    f = P.fn('parity_chsize')
+    rep.analysed(f)
+    dh = P.distructs.get('snapraid_parity_handle'); dsp = P.distructs.get('snapraid_split_handle'); dp = P.distructs.get('snapraid_parity'); ds = P.distructs.get('snapraid_split'); dst = P.distructs.get('stat')
+    if not all((dh, dsp, dp, ds, dst)):
+        raise AnalysisBroken('parity layouts not found')
+    def off(d, name):
+        return [m for m in d['members'] if m['name'] == name][0]['off']
+    H_MAC, H_MAP = off(dh, 'split_mac'), off(dh, 'split_map')
+    S_SIZE, S_ST, S_VALID = off(dsp, 'size'), off(dsp, 'st') + off(dst, 'st_size'), off(dsp, 'valid_size')
+    P_MAP, P_MAC, PS_SIZE = off(dp, 'split_map'), off(dp, 'split_mac'), off(ds, 'size')
+    BS = 4
+    M64 = (1 << 64) - 1
+    bad = None
+    nrun = 0
+
+    class Abort(Exception):
+        pass
+
+    for mac in (1, 2, 3):
+        olds = [o for o in itertools.product((0, 4, 8), repeat=mac) if all(o[k] != 0 or all(x == 0 for x in o[k:]) for k in range(mac))]
+        for o in olds:
+            a_opts = [sorted({o[k], 0} | ({o[k] - 4} if (o[k] >= 4 and mac < 3) else set())) for k in range(mac)]
+            for a in itertools.product(*a_opts):
+                c_opts = [sorted({a[k], 12} | ({a[k] + 4} if mac < 3 else set())) for k in range(mac)]
+                for cap in itertools.product(*c_opts):
+                    for req in range(0, sum(o) + 9, 4):
+                        hp = RG.P_(('obj', 'handle'), 0); pp = RG.P_(('obj', 'parity'), 0)
+                        def ext(ins, args):
+                            cal = ins.callee
+                            if cal in ('log_fatal', 'log_tag', 'log_error', 'msg_error'):
+                                return (0,)
+                            if cal == 'os_abort':
+                                raise Abort()
+                            if cal == 'parity_handle_chsize':
+                                sp, run = args[0], RG.signed(args[1], 64)
+                                k = (sp.off - H_MAP) // dsp['size']
+                                cur = R.mem[(sp.reg, sp.off + S_ST)]
+                                new = min(run, max(cap[k], cur)) if cur < run else run
+                                R.mem[(sp.reg, sp.off + S_ST)] = new
+                                if R.mem[(sp.reg, sp.off + S_VALID)] > new:
+                                    R.mem[(sp.reg, sp.off + S_VALID)] = new
+                                return (0,)
+                            return None
+                        R = RG.Region(P, extern=ext)
+                        R.mem[(hp.reg, H_MAC)] = mac
+                        R.mem[(pp.reg, P_MAC)] = mac
+                        for k in range(mac):
+                            b = H_MAP + k * dsp['size']
+                            R.mem[(hp.reg, b + S_SIZE)] = o[k]
+                            R.mem[(hp.reg, b + S_ST)] = a[k]
+                            R.mem[(hp.reg, b + S_VALID)] = a[k]
+                            R.mem[(pp.reg, P_MAP + k * ds['size'] + PS_SIZE)] = o[k]
+                        im = R.array('is_modified', [7], 4)
+                        try:
+                            rv = R.run(f, 0, [hp, pp, im, req, BS, 0, 0])
+                        except Abort:
+                            rv = -1
+                        except RG.Unsupported as e:
+                            raise AnalysisBroken('cannot interpret parity_chsize: %s' % e)
+                        nrun += 1
+                        if RG.signed(rv & 0xffffffff, 32) != 0:
+                            continue
+                        n = [R.mem[(hp.reg, H_MAP + k * dsp['size'] + S_SIZE)] for k in range(mac)]
+                        real = [R.mem[(hp.reg, H_MAP + k * dsp['size'] + S_ST)] for k in range(mac)]
+                        rec = [R.mem[(pp.reg, P_MAP + k * ds['size'] + PS_SIZE)] for k in range(mac)]
+                        why = None
+                        if sum(n) != req:
+                            why = 'the new split sizes %s do not add up to the requested %d' % (n, req)
+                        elif n != real:
+                            why = 'recorded sizes %s differ from the real file sizes %s' % (n, real)
+                        elif rec != n:
+                            why = 'sizes copied to the state %s differ from %s' % (rec, n)
+                        elif (R.mem[(im.reg, 0)] != 0) != (n != list(o)):
+                            why = 'is_modified = %s although sizes went %s -> %s' % (R.mem[(im.reg, 0)], list(o), n)
+                        else:
+                            rem = req
+                            for k in range(mac):
+                                if k + 1 < mac and o[k + 1] != 0 and rem > o[k] and n[k] != o[k]:
+                                    why = 'split %d had a used successor and the request reaches beyond it, but its size changed %d -> %d: every later position now maps to another file offset' % (k, o[k], n[k])
+                                    break
+                                rem -= n[k]
+                        if why and bad is None:
+                            bad = 'recorded sizes %s, files on disk %s, capacities %s, request %d: parity_chsize succeeds but %s' % (list(o), list(a), list(cap), req, why)
+                        if bad is None:
+                            rep.ok(rid, 'o=%s a=%s cap=%s req=%d' % (o, a, cap, req))
+    if bad:
+        rep.fail(rid, 'parity_chsize post-condition', f.file, bad, function='parity_chsize', construct='chsize domain')
+    rep.extra['chsize_configurations'] = nrun
